@@ -33,6 +33,7 @@ int g_exit_code = 0;
 long g_steps = 0, g_step_budget = 50000000;
 int g_cache_mismatch_tok = -1, g_cache_mismatch_kind = 0;
 long g_sink_bytes = 0;
+int g_pl_last = -1, g_pl_toks = -1, g_announce_fd = -1;
 
 LibEnter::LibEnter() : saved(g_in_lib) { g_in_lib = 1; }
 LibEnter::~LibEnter() { g_in_lib = saved; }
@@ -288,6 +289,15 @@ size_t heap_tree_live_of_op(Backend be, int op) {
   return n;
 }
 
+void heap_drop_tree_of_op(Backend be, int op) {
+  ensure();
+  NoLib n;
+  std::vector<std::pair<void *, Block>> v;
+  for (auto &kv : *g_blocks)
+    if (kv.second.be == be && kv.second.kind == K_TREE && kv.second.op == op) v.push_back({(void *)kv.first, kv.second});
+  for (auto &p : v) { g_blocks->erase(p.first); ::free(p.second.real); }
+}
+
 void heap_excuse_op_blocks(Backend be, int op) {
   ensure();
   for (auto &kv : *g_blocks)
@@ -499,6 +509,15 @@ int yaep_verif_cache_veto(void) {
 int yaep_verif_cache_selfcheck(void) {
   if (g_cfg.selfcheck) g_cur.cache_checked++;
   return g_cfg.selfcheck;
+}
+void yaep_verif_parse_list(int last_pl_el, int n_toks) {
+  g_pl_last = last_pl_el;
+  g_pl_toks = n_toks;
+  if (g_announce_fd >= 0) {
+    char b[64];
+    int n = snprintf(b, sizeof b, "PLLEN %d %d\n", last_pl_el, n_toks);
+    if (write(g_announce_fd, b, (size_t)n) < 0) {}
+  }
 }
 void yaep_verif_cache_mismatch(int tok, int kind) {
   if (g_cache_mismatch_tok < 0) {
